@@ -204,6 +204,8 @@ struct V {
     /// inside the condition of a branch that is not the last one of its block (open finding:
     /// complement narrowing after a tuple pattern with several type-constraining sub-patterns)
     non_last_cond: std::cell::Cell<bool>,
+    /// matches on traceable values (parameter / variable) seen in the current condition
+    prov_matches: std::cell::Cell<u32>,
 }
 
 impl V {
@@ -460,6 +462,12 @@ impl V {
                     // than a nil-able scrutinee) and the scrutinee is traceable to a name
                     let refutable = !(pat_binds(p, &before).is_some() && pat_irrefutable(p, &before));
                     last_match_narrows = refutable && prov && !after_match;
+                    if prov && !after_match {
+                        self.prov_matches.set(self.prov_matches.get() + 1);
+                        if self.in_field.get() > 0 {
+                            return Err("a match on a variable / parameter inside a tuple field (open finding: the field's provenance is the matched value's)".into());
+                        }
+                    }
                     after_match = true
                 }
                 _ => {
@@ -525,7 +533,9 @@ impl V {
                 let ic = self.in_cond.replace(false);
                 let mm = self.multi_match_cond.replace(false);
                 let nl = self.non_last_cond.replace(false);
+                let pm = self.prov_matches.get();
                 let r = self.branches(&inner, tin, e, tail, cx);
+                self.prov_matches.set(pm);
                 self.in_field.set(depth);
                 self.in_cond.set(ic);
                 self.multi_match_cond.set(mm);
@@ -537,7 +547,9 @@ impl V {
                 let ic = self.in_cond.replace(false);
                 let mm = self.multi_match_cond.replace(false);
                 let nl = self.non_last_cond.replace(false);
+                let pm = self.prov_matches.get();
                 let r = self.function(env, param, body);
+                self.prov_matches.set(pm);
                 self.in_field.set(depth);
                 self.in_cond.set(ic);
                 self.multi_match_cond.set(mm);
@@ -657,6 +669,9 @@ impl V {
                     return Err("binding a tail call".into());
                 }
                 env.kill_pending();
+                if fs_out.1 && !fs_out.0 {
+                    self.prov_matches.set(self.prov_matches.get() + 1);
+                }
                 let (vty, refutable) = self.check_pat(env, p, &ty, true, fs_out.1 && !fs_out.0)?;
                 Ok((vty, if refutable { env.pending() } else { vec![] }, (true, fs_out.1)))
             }
@@ -722,7 +737,11 @@ impl V {
             let ic = self.in_cond.replace(b.cons.is_some());
             let mm = self.multi_match_cond.replace(cond_match_count(&b.cond) >= 2);
             let nl = self.non_last_cond.replace(!is_last);
+            self.prov_matches.set(0);
             let r = self.seq(&mut benv, tin, &b.cond, tail && b.cons.is_none() && is_last, c);
+            if r.is_ok() && !is_last && self.prov_matches.get() >= 2 {
+                return Err("two matches on variables / the parameter in the condition of a non-last branch (open finding: a statically failing second match leaves complement narrowing active)".into());
+            }
             self.in_cond.set(ic);
             self.multi_match_cond.set(mm);
             self.non_last_cond.set(nl);
@@ -773,6 +792,9 @@ impl V {
     fn function(&self, env: &Env, param: &Ty, body: &Option<Expr>) -> R<(Ty, bool)> {
         let mut cap = Env { vars: env.vars.clone(), depth: env.depth + 1 };
         cap.kill_pending();
+        if param.contains_nil() && !param.is_nil() {
+            return Err("function whose parameter type is `T | []` (open finding: return-type dispatch with a nil argument)".into());
+        }
         let Some(body) = body else {
             if param.is_nil() {
                 return Err("identity function of nil".into());
@@ -891,7 +913,7 @@ pub fn validate(p: &Program) -> R<()> {
     if p.prints_ambiguously() {
         return Err("prints ambiguously".into());
     }
-    let v = V { flow: std::cell::Cell::new((false, true)), last_narrows: std::cell::Cell::new(false), in_field: std::cell::Cell::new(0), in_cond: std::cell::Cell::new(false), multi_match_cond: std::cell::Cell::new(false), non_last_cond: std::cell::Cell::new(false) };
+    let v = V { flow: std::cell::Cell::new((false, true)), last_narrows: std::cell::Cell::new(false), in_field: std::cell::Cell::new(0), in_cond: std::cell::Cell::new(false), multi_match_cond: std::cell::Cell::new(false), non_last_cond: std::cell::Cell::new(false), prov_matches: std::cell::Cell::new(0) };
     let cx = Cx { param: None, rec: false };
     let mut env = Env::default();
     let n = p.steps.len();
